@@ -11,11 +11,11 @@ def run(ctx, args):
     rng = random.Random(ctx.seed)
     d = ctx.specdir("Rounds")
     # ---- E3: all monotone submission sequences (exhaustive)
-    ctx.tlc_mc(d, "MC_Work.tla", "MC_Work.cfg" if quick else "MC_Work_thorough.cfg", workers=8, timeout=1500)
+    ctx.tlc_mc(d, "MC_Work.tla", "MC_Work.cfg" if quick else "MC_Work_thorough.cfg", workers=8, timeout=3000)
     ctx.tlc_mc(d, "MC_Work.tla", "MC_Work_ReachGrow.cfg", workers=4, timeout=600, expect_violation="ReachGrow", count=False)
     ctx.exhaustive = True
     # ---- E1: every edge of every world -> walks on a real store
-    edges = ctx.tlc_edges(d, "MC_Work.tla", "Gen_Work.cfg" if quick else "Gen_Work_thorough.cfg", timeout=1500)
+    edges = ctx.tlc_edges(d, "MC_Work.tla", "Gen_Work.cfg" if quick else "Gen_Work_thorough.cfg", timeout=3000)
     byworld = {}
     for e in edges:
         byworld.setdefault(json.dumps(e["from"]["w"], sort_keys=True), []).append(e)
@@ -58,7 +58,7 @@ def run(ctx, args):
                 "least two submissions")
     ctx.samples = [[[e["ev"], e.get("round"), [s["id"] for s in e.get("snaps", [])], e.get("res")] for e in t[1]][:8]
                    for t in traces[:2] + traces[-2:]]
-    r = ctx.tlc_trace(d, "Trace_Work.tla", "Trace_Work_full.cfg", trace, timeout=1500)
+    r = ctx.tlc_trace(d, "Trace_Work.tla", "Trace_Work_full.cfg", trace, timeout=3000)
     if r["accepted"]:
         ctx.traces = len(traces)
         ctx.log("E2 full conformance: %d traces / %d lines accepted" % (len(traces), len(events)))
@@ -66,7 +66,7 @@ def run(ctx, args):
         ctx.log("E2 full conformance rejected at line %s (invariant %s); running the property monitor" % (r["line"], r["invariant"]))
         ctx.mismatches.append({"line": r["line"], "invariant": r["invariant"],
                                "event": events[r["line"] - 1] if r["line"] and r["line"] <= len(events) else None})
-        r2 = ctx.tlc_trace(d, "Trace_Work.tla", "Trace_Work_monitor.cfg", trace, timeout=1500)
+        r2 = ctx.tlc_trace(d, "Trace_Work.tla", "Trace_Work_monitor.cfg", trace, timeout=3000)
         if r2["accepted"]:
             ctx.traces = len(traces)
             ctx.notes.append("conformance mismatch not forbidden by this property (see conformance_mismatches)")
